@@ -21,7 +21,7 @@ pub const REQUIRED: &[&str] = &[
     "u8.c32.generic", "u8.c32.sse2", "u8.c32.avx2", "u8.c32.dispatch[generic]", "u8.c32.dispatch[sse2]",
     "u8.c32.dispatch[avx2]", "u8.c32.dispatch[auto]", "u8.c32.StripedScores", "Scores", "family.all_negative",
     "family.planted", "family.duplicated_max", "family.infinities", "family.all_equal", "rows.0", "rows.1", "rows>256",
-    "rows>32768", "reused_larger_buffer", "real.padding_cells_checked", "real.finite_max", "dispatch_forced.generic",
+    "rows>32768", "reused_larger_buffer", "real.padding_cells_checked", "real.finite_max", "real.threshold_checked", "dispatch_forced.generic",
     "dispatch_forced.sse2", "dispatch_forced.avx2",
 ];
 
@@ -589,6 +589,49 @@ fn case_real(case: u64, rng: &mut Rng, rep: &mut Report) {
                 format!("{}: cell of position {} (past the last valid position {}) holds {} instead of -inf", arm.name(), i, exact.len().saturating_sub(1), v),
                 wit(),
             );
+        }
+        // thresholding a real score matrix: max_index = L-M+1 is in general not a multiple of the row
+        // count, the last column is only partially filled - every cell >= t must still be returned
+        {
+            let finite: Vec<f32> = (0..exact.len()).map(|i| out.matrix()[i % r_rows][i / r_rows]).filter(|x| x.is_finite()).collect();
+            if !finite.is_empty() {
+                let t = finite[rng.below(finite.len())];
+                force(if arm.is_dispatch() { arm } else { Arm::DispAuto });
+                let got = guard(|| out.threshold(t));
+                unforce();
+                let direct = guard(|| match arm {
+                    Arm::Sse2 => Pipeline::<Dna, _>::sse2().unwrap().threshold(&out, t),
+                    Arm::Avx2 => Pipeline::<Dna, _>::avx2().unwrap().threshold(&out, t),
+                    _ => Pipeline::<Dna, _>::generic().threshold(&out, t),
+                });
+                rep.cover("real.threshold_checked");
+                let mut expect: Vec<usize> = Vec::new();
+                for c in 0..32 {
+                    for r in 0..r_rows {
+                        if out.matrix()[r][c] >= t {
+                            expect.push(c * r_rows + r);
+                        }
+                    }
+                }
+                expect.sort();
+                match (got, direct) {
+                    (Ok(mut g), Ok(d)) => {
+                        g.sort();
+                        let mut d: Vec<usize> = d.into_iter().map(|mc| mc.col * r_rows + mc.row).collect();
+                        d.sort();
+                        if g != expect || d != expect {
+                            let miss = expect.iter().find(|x| !g.contains(x) || !d.contains(x));
+                            rep.violate(
+                                "c07.real_threshold",
+                                case,
+                                format!("{}: threshold({}) on a real score matrix ({} rows, {} positions) returns {} / {} cells, {} cells are >= t; e.g. position {:?} is missing", arm.name(), t, r_rows, exact.len(), g.len(), d.len(), expect.len(), miss),
+                                wit(),
+                            );
+                        }
+                    }
+                    (Err(p), _) | (_, Err(p)) => rep.violate(&format!("c07.panic:{}", panic_site(&p)), case, format!("panic in threshold: {}", p), wit()),
+                }
+            }
         }
         if best_exact.is_finite() {
             rep.cover("real.finite_max");
